@@ -78,8 +78,27 @@ def check(c):
         k, p = kind_of(o)
         if k == 'ok':
             images.append((h, p[1]))
+    # ---- structure-aware variants (coq/Ser/Variants.v): one field of a valid value replaced by another
+    # encoding / an in-range but impossible value / an emptied or duplicated container, re-encoded by the model
+    vsrc = [(h, img) for h, img in images if c.tier != 'quick' or len(img) <= 1500]
+    import vlib
+    vout = vlib.run_batch([vlib.build_model(S.AREA)], [S.mline('variants', TODAY, img) for _, img in vsrc],
+                          timeout=600, stack_unlimited=True, min_chunk=1)
+    variants = []
+    vseen = set()
+    for (h, _), o in zip(vsrc, vout):
+        vs = [v for v in (try_parse(o) or []) if isinstance(v, bytes)]
+        fresh = []
+        for v in vs:
+            if v not in vseen:
+                vseen.add(v)
+                fresh.append(v)
+        if c.tier == 'quick' and len(fresh) > 110:
+            fresh = r.sample(fresh, 110)
+        variants += [(h, 'variant', j, v) for j, v in enumerate(fresh)]
+    c.extra['structure_aware_variants'] = len(variants)
     # ---- mutants ------------------------------------------------------------
-    cases = []      # (origin, kind, offset, bytes)
+    cases = list(variants)      # (origin, kind, offset, bytes)
     per_image = 330 if c.tier == 'quick' else None
     for h, img in images:
         cases.append((h, 'valid', 0, img))
@@ -194,40 +213,65 @@ def check(c):
             accepted.append((i, ents))
     c.extra['outcomes_impl_model'] = {'%s/%s' % k: v for k, v in sorted(outcome.items())}
 
-    # ---- crash probe on accepted images -----------------------------------
-    if c.tier == 'quick' and len(accepted) > 900:
-        # keep every not-well-formed one, sample the rest
-        bad = [a for a in accepted if not all(e['wfs'] for e in a[1])]
-        good = [a for a in accepted if all(e['wfs'] for e in a[1])]
-        accepted = bad[:250] + r.sample(good, min(len(good), 650))
-    pl = c.impl(S.AREA, [sx([Sym('loaded'), cases[i][3], [e['name'] for e in ents][:6], PROBES, []]) for i, ents in accepted])
+    # ---- evaluation battery on accepted images ---------------------------
+    # every accepted structure-aware variant, a sample of the other accepted images (all in thorough tier);
+    # per variable an operation battery chosen by the kind of the loaded value (ser_common.battery)
+    acc_var = [a for a in accepted if cases[a[0]][1] in ('variant', 'witness')]
+    acc_oth = [a for a in accepted if cases[a[0]][1] not in ('variant', 'witness')]
+    if c.tier == 'quick' and len(acc_oth) > 300:
+        acc_oth = r.sample(acc_oth, 300)
+    accepted = acc_var + acc_oth
+    plan = []
+    for i, ents in accepted:
+        exprs, seen_val = [], set()
+        for e in ents[:6]:
+            val = e['bytes'][8 + len(e['name']):]
+            if val in seen_val:          # `_`, `ans` and the variable usually hold the same value
+                continue
+            seen_val.add(val)
+            nm_ = e['name'].decode('utf-8', 'replace')
+            exprs += [p_.replace('$', nm_) for p_ in S.battery(e['kind'])]
+        plan.append(exprs)
+    pl = c.impl(S.AREA, [sx([Sym('evalx'), cases[i][3]] + ex) for (i, _), ex in zip(accepted, plan)], timeout=30)
+    # a request that died as a whole (abort / hang): find the expression by running them one at a time
+    redo = [(n, x) for n, o in enumerate(pl) if kind_of(o)[0] != 'ok' for x in plan[n]]
+    redo_out = c.impl(S.AREA, [sx([Sym('evalx'), cases[accepted[n][0]][3], x]) for n, x in redo], timeout=30) if redo else []
+    culprit = {}
+    for (n, x), o in zip(redo, redo_out):
+        if kind_of(o)[0] != 'ok' and n not in culprit:
+            culprit[n] = (x, o[:80])
     t3 = time.time()
     c.extra['phase_seconds'] = {'impl_load': round(t1 - t0, 1), 'model': round(t2 - t1, 1), 'crash_probe': round(t3 - t2, 1)}
     probe_stats = collections.Counter()
-    for (i, ents), o in zip(accepted, pl):
+    nexpr = nskipped = 0
+    for n, ((i, ents), o) in enumerate(zip(accepted, pl)):
         origin, mk, off, b = cases[i]
         k, p = kind_of(o)
         wf = all(e['wfs'] for e in ents)
         bad = None
         if k != 'ok':
-            bad = 'evaluating a loaded variable: ' + o[:100]
+            x, how = culprit.get(n, ('(no single expression reproduces it)', o[:80]))
+            bad = 'evaluating %r against the loaded context: %s' % (x, how)
         else:
-            for nm_, rs in zip([e['name'] for e in ents][:6], p[1]):
-                for j, x in enumerate(rs):
-                    if x[0] == b'p':
-                        bad = 'variable %r probe %r panics: %s' % (nm_.decode('utf-8', 'replace'), PROBES[j], x[1][:80].decode('utf-8', 'replace'))
-                        break
-                if bad:
+            for x, res in zip(plan[n], p[1]):
+                nexpr += 1
+                if res[0] == b's':
+                    nskipped += 1
+                if res[0] == b'p':
+                    bad = 'evaluating %r against the loaded context panics: %s' % (x, res[1][:100].decode('utf-8', 'replace'))
                     break
-        probe_stats[('crash' if bad else 'fine', 'wf' if wf else 'not-wf')] += 1
+            if bad is None and p[2] != 1:
+                bad = 'the loaded context cannot be saved again'
+        probe_stats[('crash' if bad else 'fine', 'wf' if wf else 'not-wf', 'variant' if mk in ('variant', 'witness') else 'mutant')] += 1
         if bad:
             if (not wf) and c.known_finding('loaded_not_wf'):
                 continue
             c.violation('loaded-context-crashes', {'kind': 'impl-vs-spec', 'mutation': mk, 'offset': off, 'origin_history': origin,
                                                     'image_hex': b.hex(), 'what': bad, 'model_says_well_formed': wf})
-    c.extra['crash_probe'] = {'%s/%s' % k: v for k, v in sorted(probe_stats.items())}
+    c.extra['battery_expressions'] = {'evaluated': nexpr, 'beyond_time_budget': nskipped}
+    c.extra['crash_probe'] = {'/'.join(k): v for k, v in sorted(probe_stats.items())}
     c.extra['valid_images'] = len(images)
-    c.extra['probes_per_variable'] = PROBES
+    c.extra['battery_sizes'] = {'number': len(S.BAT_NUM), 'date': len(S.BAT_DATE), 'string': len(S.BAT_STR), 'function': len(S.BAT_FN), 'other': len(S.BAT_OTHER)}
     if cases:
         c.sample({'mutation': cases[len(cases) // 3][1], 'offset': cases[len(cases) // 3][2], 'impl': il[len(cases) // 3][:60], 'model': mt[len(cases) // 3][:60]})
     if c.tier == 'thorough':
